@@ -301,6 +301,18 @@ Section Response.
   Qed.
 End Response.
 
+(* ------------------------------------------------------------------ interim responses *)
+Lemma client_next_final v11 meth s o rest :
+  client_parse v11 meth s = Some (o, rest) -> interim (o_code o) = false -> client_next v11 meth s = Some (o, rest).
+Proof. intros H Hi. unfold client_next. cbn [client_parse_skip]. rewrite H, Hi. reflexivity. Qed.
+
+Lemma observable_not_interim closing q r order :
+  interim (r_code r) = false -> interim (o_code (observable closing q r order)) = false.
+Proof.
+  intro H. unfold observable. cbv zeta. destruct (prepare_inv closing q r) as (_ & _ & H3 & _).
+  destruct (writer_kind q (prepare closing q r)); [reflexivity | |]; cbn [ho_obs go_obs o_code]; rewrite H3; exact H.
+Qed.
+
 (* ------------------------------------------------------------------ a persistent connection *)
 Record exchange := mkX { x_closing : bool; x_req : req; x_resp : resp; x_order : list str }.
 Definition x_survives (x : exchange) : bool := conn_survives (x_closing x) (x_req x) (x_resp x).
@@ -318,6 +330,7 @@ Definition conn_wire (xs : list exchange) : str := concat (map x_wire (served xs
 
 Definition x_ok (v11 : bool) (x : exchange) : Prop :=
   wf_resp (x_req x) (x_resp x) (x_order x) = true /\ client11 (x_req x) = v11 /\
+  interim (r_code (x_resp x)) = false /\   (* what the transport returns is a final response *)
   is_connect_ok (x_req x) (x_resp x) = false /\
   write_ok (x_closing x) (x_req x) (x_resp x) = true.
 
@@ -334,14 +347,15 @@ Section Connection.
     Some (map x_obs (served xs), []).
   Proof.
     induction xs as [|x rest IH]; intro H; [reflexivity|].
-    inversion H as [|? ? (Hwf & Hv & Hco & Hok) Hrest]; subst.
+    inversion H as [|? ? (Hwf & Hv & Hint & Hco & Hok) Hrest]; subst.
     unfold conn_wire. cbn [served map concat client_parse_seq].
+    pose proof (observable_not_interim (x_closing x) (x_req x) (x_resp x) (x_order x) Hint) as Hni.
     destruct (x_survives x) eqn:Es.
     - fold (conn_wire rest). unfold x_wire at 1.
-      rewrite (roundtrip Hho Hshape Hconn Hreframe Hwerr _ _ _ _ (conn_wire rest) Hwf (or_introl Es)).
+      rewrite (client_next_final _ _ _ _ _ (roundtrip Hho Hshape Hconn Hreframe Hwerr _ _ _ _ (conn_wire rest) Hwf (or_introl Es)) Hni).
       rewrite (IH Hrest). reflexivity.
     - cbn [map concat]. rewrite app_nil_r. unfold x_wire.
-      rewrite (roundtrip_close Hho Hshape Hreframe _ _ _ _ Hwf Hok Es Hco). reflexivity.
+      rewrite (client_next_final _ _ _ _ _ (roundtrip_close Hho Hshape Hreframe _ _ _ _ Hwf Hok Es Hco) Hni). reflexivity.
   Qed.
 End Connection.
 
